@@ -272,7 +272,7 @@ def match_known(record, findings):
 
 def write_replay(prop, run_seed, program, record, original_program=None,
                  shrink_steps=0):
-    d = os.path.join(env.VERIF_HOME, 'replays')
+    d = os.path.join(os.environ.get('VERIF_OUT') or env.VERIF_HOME, 'replays')
     os.makedirs(d, exist_ok=True)
     tag = hashlib.sha1(json.dumps(
         [violation_class(record)], sort_keys=True).encode()).hexdigest()[:8]
@@ -343,7 +343,9 @@ def replay(path, log=print):
 # --------------------------------------------------------------------------
 
 def write_evidence(prop, tier, seed, agg, wall_s, mod, n_violations, extra=None):
-    d = os.path.join(env.VERIF_HOME, 'evidence')
+    # VERIF_OUT redirects evidence and replay files (used when the checks are
+    # pointed at a scratch copy of the repo, e.g. a seeded mutant)
+    d = os.path.join(os.environ.get('VERIF_OUT') or env.VERIF_HOME, 'evidence')
     os.makedirs(d, exist_ok=True)
     sets_summary = {}
     for k, v in sorted(agg.sets.items()):
